@@ -10,13 +10,13 @@ import (
 	"crypto"
 	"crypto/rsa"
 	"crypto/x509"
-	"math/big"
 	"encoding/base64"
 	"encoding/binary"
 	"encoding/json"
 	"encoding/pem"
 	"fmt"
 	"io"
+	"math/big"
 	"os"
 	"os/exec"
 	"path/filepath"
@@ -71,15 +71,16 @@ type e2eCase struct {
 	Exit       int      `json:"exit"`
 	Stderr     string   `json:"stderr"`
 	OutExists  bool     `json:"out_exists"`
-	Found      []int    `json:"found"`       // known certificates located in the output by the raw scanner, in order of appearance
-	FoundFor   []string `json:"found_for"`   // keys those certificates were minted for
-	RvErr      string   `json:"rv_err"`      // relic's own verifier on the output ("" ok, "n/a" no verifier)
-	RvLeaf     []int    `json:"rv_leaf"`     // leaf per signature according to relic's verifier
-	RvLeafFor  []string `json:"rv_leaf_for"` // keys those leaves were minted for
+	Found      []int    `json:"found"`        // known certificates located in the output by the raw scanner, in order of appearance
+	FoundFor   []string `json:"found_for"`    // keys those certificates were minted for
+	RvErr      string   `json:"rv_err"`       // relic's own verifier on the output ("" ok, "n/a" no verifier)
+	RvLeaf     []int    `json:"rv_leaf"`      // leaf per signature according to relic's verifier
+	RvLeafFor  []string `json:"rv_leaf_for"`  // keys those leaves were minted for
 	SigTrueKey int      `json:"sig_true_key"` // 1 every signature value verifies under the TRUE public key (Go crypto), 0 one does not, -1 not checked
 	SigChecks  int      `json:"sig_checks"`
 	PgpIssuer  []string `json:"pgp_issuer"` // fixture keys whose PGP certificate the signatures name as issuer
 	Ms         int64    `json:"ms"`
+	Retries    int      `json:"retries"`
 }
 
 func scenarios() []scenario {
@@ -293,18 +294,29 @@ func runOne(fx *fixtures, relic, conf, pkgs, dir string, byName map[string]*scen
 		args = append(args, "-T", st.TFlag)
 	}
 	t0 := time.Now()
-	cmd := exec.Command(relic, args...)
 	var stderr bytes.Buffer
-	cmd.Stderr = &stderr
-	cmd.Stdin = nil
-	err := cmd.Run()
-	ec.Ms = time.Since(t0).Milliseconds()
-	if err != nil {
-		ec.Exit = 1
-		if ee, ok := err.(*exec.ExitError); ok {
-			ec.Exit = ee.ExitCode()
+	for attempt := 0; attempt < 3; attempt++ {
+		// (the dmg signer sporadically fails with a bare "EOF" when many relic processes run at once; unrelated to the
+		// key/certificate relation, so such a run is repeated)
+		stderr.Reset()
+		os.Remove(out)
+		cmd := exec.Command(relic, args...)
+		cmd.Stderr = &stderr
+		cmd.Stdin = nil
+		err := cmd.Run()
+		ec.Exit = 0
+		if err != nil {
+			ec.Exit = 1
+			if ee, ok := err.(*exec.ExitError); ok {
+				ec.Exit = ee.ExitCode()
+			}
 		}
+		if ec.Exit == 0 || !strings.HasSuffix(strings.TrimSpace(stderr.String()), "ERROR: EOF") {
+			break
+		}
+		ec.Retries++
 	}
+	ec.Ms = time.Since(t0).Milliseconds()
 	ec.Stderr = strings.TrimSpace(stderr.String())
 	if len(ec.Stderr) > 200 {
 		ec.Stderr = ec.Stderr[len(ec.Stderr)-200:]
